@@ -68,7 +68,10 @@ type ModAnalysis struct {
 	funcs []*ssa.Function
 	known map[*ssa.Function]bool
 	// allocation ids
-	allocID map[ssa.Value]int
+	allocID  map[ssa.Value]int
+	allocVal map[string]ssa.Value
+	deep     map[*ssa.Function]locSet
+	deepBusy map[*ssa.Function]bool
 	// per function: points-to of local allocations (root a:N -> locs stored into it)
 	pts map[*ssa.Function]map[string]locSet
 	// library functions assumed pure (reported as trusted base)
@@ -85,7 +88,7 @@ type ModAnalysis struct {
 
 func newModAnalysis(p *Program, exempt ...*ssa.Function) *ModAnalysis {
 	m := &ModAnalysis{prog: p, exempt: map[*ssa.Function]bool{}, Mods: map[*ssa.Function]locSet{}, Rets: map[*ssa.Function][]locSet{}, known: map[*ssa.Function]bool{},
-		allocID: map[ssa.Value]int{}, pts: map[*ssa.Function]map[string]locSet{}, AssumedPure: map[string]bool{}, impls: map[string][]*ssa.Function{}, DynCalls: map[string]bool{}}
+		allocID: map[ssa.Value]int{}, allocVal: map[string]ssa.Value{}, deep: map[*ssa.Function]locSet{}, deepBusy: map[*ssa.Function]bool{}, pts: map[*ssa.Function]map[string]locSet{}, AssumedPure: map[string]bool{}, impls: map[string][]*ssa.Function{}, DynCalls: map[string]bool{}}
 	for _, f := range exempt {
 		if f != nil {
 			m.exempt[f] = true
@@ -128,6 +131,7 @@ func (m *ModAnalysis) aid(v ssa.Value) string {
 	if !ok {
 		id = len(m.allocID) + 1
 		m.allocID[v] = id
+		m.allocVal[fmt.Sprintf("a:%d", id)] = v
 	}
 	return fmt.Sprintf("a:%d", id)
 }
@@ -702,4 +706,76 @@ func (m *ModAnalysis) PureCall(call ssa.CallInstruction) bool {
 		return m.IsPure(f.Fn.(*ssa.Function))
 	}
 	return false
+}
+
+func (m *ModAnalysis) fnCtx(f *ssa.Function) *modFn {
+	return &modFn{m: m, f: f, dv: map[ssa.Value]locSet{}, bsy: map[ssa.Value]bool{}}
+}
+
+// DeepOrigins: every pre-existing location (rooted at a parameter, free variable, global or unknown)
+// that is reachable — through fields, elements and nested fresh objects — from a result of f.
+// An empty set means: everything reachable from the result was allocated during the call.
+func (m *ModAnalysis) DeepOrigins(f *ssa.Function) locSet {
+	if r, ok := m.deep[f]; ok {
+		return r
+	}
+	if m.deepBusy[f] {
+		return locSet{}
+	}
+	m.deepBusy[f] = true
+	defer delete(m.deepBusy, f)
+	out := locSet{}
+	if len(f.Blocks) == 0 {
+		m.deep[f] = out
+		return out
+	}
+	a := m.fnCtx(f)
+	seen := locSet{}
+	var work []string
+	push := func(l string) {
+		if !seen[l] {
+			seen[l] = true
+			work = append(work, l)
+		}
+	}
+	for _, b := range f.Blocks {
+		for _, in := range b.Instrs {
+			if ret, ok := in.(*ssa.Return); ok {
+				for _, r := range ret.Results {
+					if isRefLike(r.Type()) {
+						for l := range a.derive(r) {
+							push(l)
+						}
+					}
+				}
+			}
+		}
+	}
+	for len(work) > 0 {
+		l := work[len(work)-1]
+		work = work[:len(work)-1]
+		root := locRoot(l)
+		if !strings.HasPrefix(root, "a:") {
+			out[l] = true
+			continue
+		}
+		for x := range m.pts[f][root] {
+			push(x)
+		}
+		// fresh object produced by a call: what the callee may have stored into it
+		if v, ok := m.allocVal[root]; ok {
+			if call, ok := v.(*ssa.Call); ok {
+				mod, _, _, _ := a.callees(call.Common())
+				for _, ci := range mod {
+					for o := range m.DeepOrigins(ci.fn) {
+						for x := range a.translate(o, ci.args, ci.bindings) {
+							push(x)
+						}
+					}
+				}
+			}
+		}
+	}
+	m.deep[f] = out
+	return out
 }
